@@ -28,10 +28,17 @@ class Native:
             msg = self.check(args, res, exc)
         except Exception as e:
             msg = f'contract evaluation raised {type(e).__name__}: {e} (result={res!r}, exc={exc!r})'
+        self.last_class = None
         if msg is True or msg is None:
             return None
         if msg is False:
             msg = 'postcondition false'
+        if isinstance(msg, tuple):          # ('class', <key of a precisely delimited class of failing inputs>, message)
+            _, self.last_class, msg = msg
+        elif getattr(self, 'classify', None) is not None:
+            # optional hook classify(args, res, exc, msg) -> class key or None: the predicate that delimits a listed known finding
+            try: self.last_class = self.classify(args, res, exc, msg)
+            except Exception: self.last_class = None
         return f'{msg}; args={args!r} result={res!r} exc={type(exc).__name__ if exc else None}{": " + str(exc) if exc else ""}'
 
     def replay_code(self, args):
@@ -43,25 +50,42 @@ class Native:
                 f"sys.exit(1 if msg else 0)\n")
 
     def run(self, tier, prop_key=None, limit_s=None):
+        from lib.common import load_findings
+        listed = {f['key'] for f in load_findings()}
         t0 = time.time(); n = 0; bad = None
+        self.known = []          # failures that are listed known findings: enumeration goes on past them, so that a different violation is still found
+        seen = set()
         for args in self.inputs(tier):
             n += 1
             msg = self.eval1(args)
             if msg:
-                bad = (args, msg); break
+                key = f'{self.func}:{self.name}:{self.last_class or _wkey(args)}'
+                if key in listed:
+                    if key not in seen:
+                        seen.add(key)
+                        k = Ob(f'bounded:{self.name}:known', self.func, 'native-enum', B, 'refuted', 'cpython', 0.0, detail=msg)
+                        k.witness = dict(key=key, text=msg, replay=self.replay_code(args))
+                        self.known.append(k)
+                    continue
+                bad = (args, msg, key); break
             if limit_s and time.time() - t0 > limit_s:
                 break
         dt = time.time() - t0
         o = Ob(f'bounded:{self.name}', self.func, 'native-enum', B, 'discharged' if bad is None else 'refuted', 'cpython', dt,
-               bound=f'{self.bound}; {n} cases', detail=f'{n} cases evaluated')
+               bound=f'{self.bound}; {n} cases', detail=f'{n} cases evaluated' + (f' ({len(seen)} listed known finding(s) among them)' if seen else ''))
         o.evals = n
         if bad:
-            args, msg = bad
-            o.witness = dict(key=f'{self.func}:{self.name}:{_wkey(args)}', text=msg, replay=self.replay_code(args))
+            args, msg, key = bad
+            o.witness = dict(key=key, text=msg, replay=self.replay_code(args))
             o.detail = msg
         if n == 0:
             o.status = 'error'; o.detail = 'empty input domain'
         return o
+
+    def run_all(self, tier):
+        """like run, but returns the list [obligation] + [one refuted obligation per listed known finding that was met]"""
+        o = self.run(tier)
+        return [o] + self.known
 
 
 def _wkey(args):
@@ -79,5 +103,5 @@ def run_natives(module, names, tier):
     M = importlib.import_module(module)
     out = []
     for nm in names:
-        out.append(M.NATIVE[nm].run(tier))
+        out += M.NATIVE[nm].run_all(tier)
     return out
